@@ -1,6 +1,7 @@
 package props
 
 import (
+	"reflect"
 	"errors"
 	"fmt"
 	"strings"
@@ -13,7 +14,7 @@ import (
 	"verifharness/internal/val"
 )
 
-var c20Floor = []string{"set", "get", "get.unset", "get.after-set-same-row", "get.before-set-same-row", "set.overwrite", "set.expr", "set.literal", "where", "prepopulated", "queries.2", "queries.3+", "keys.multi", "table.empty", "dual", "prebuilt", "order.projected", "order.unprojected", "grouped", "grouped.having", "get.subquery", "opt.callback", "keys.numeric", "union.derived-right", "union.cte-right", "union.nested-right", "union.plain", "reexec.register-where", "multidim.register-where", "literal.whitespace", "set.case-arm", "distinct", "union.cte-chain3"}
+var c20Floor = []string{"set", "get", "get.unset", "get.after-set-same-row", "get.before-set-same-row", "set.overwrite", "set.expr", "set.literal", "where", "prepopulated", "queries.2", "queries.3+", "keys.multi", "table.empty", "dual", "prebuilt", "order.projected", "order.unprojected", "grouped", "grouped.having", "get.subquery", "opt.callback", "keys.numeric", "union.derived-right", "union.cte-right", "union.nested-right", "union.plain", "reexec.register-where", "multidim.register-where", "literal.whitespace", "set.case-arm", "distinct", "union.cte-chain3", "native.stored-as-is"}
 
 func init() {
 	fw.Register(&fw.Prop{
@@ -34,6 +35,7 @@ func init() {
 			{Name: "grouped", N: func(t fw.Tier) int { return pick(t, 1000, 30000) }, Run: c20Grouped},
 			{Name: "union", N: func(t fw.Tier) int { return pick(t, 600, 20000) }, Run: c20Union},
 			{Name: "reexec", N: func(t fw.Tier) int { return pick(t, 600, 20000) }, Run: c20Reexec},
+			{Name: "native", N: func(t fw.Tier) int { return pick(t, 600, 20000) }, Run: c20Native},
 		},
 		Witness: sqlWitness,
 	})
@@ -752,4 +754,71 @@ func c20Reexec(c *fw.Case) {
 	}
 	c.Sample(map[string]any{"sql": sql})
 	c.Nontrivial(sql + val.Canon(t.Array()))
+}
+
+// c20Native: a register holds the value that was stored - also when the
+// document was built by Go code and the value is a native integer (an id or a
+// nanosecond timestamp beyond 2^53), a float32, or an empty string. GETVAR
+// returns that very value, the caller's map holds it, and a second query given
+// the map reads it.
+func c20Native(c *fw.Case) {
+	pool := []any{int64(9007199254740993), int64(9007199254740995), uint64(18446744073709551615), int64(-9223372036854775807), int(4611686018427387905), uint64(9223372036854775809),
+		int8(-7), uint16(65535), int32(2147483647), float32(0.1), float32(16777217), "", "0", 0.0, false, int64(1), 1.0, uint8(255)}
+	n := 1 + c.Intn(6)
+	rows := make([]any, n)
+	for i := range rows {
+		rows[i] = map[string]any{"rid": float64(i), "big": gen.Pick(c.R, pool)}
+	}
+	doc := map[string]any{"t1": rows}
+	vars := map[string]any{}
+	if c.Chance(0.3) {
+		vars["k"] = "init"
+	}
+	sql := "SELECT rid, SETVAR('k', big), GETVAR('k') AS g FROM t1"
+	dual := c.Chance(0.2)
+	if dual {
+		doc["big"] = rows[n-1].(map[string]any)["big"]
+		sql = "SELECT SETVAR('k', big), GETVAR('k') AS g FROM dual"
+	}
+	o := Run(doc, sql, genql.WithVars(vars))
+	c.Evals(1)
+	c.Feature("native.stored-as-is")
+	det := map[string]any{"sql": sql, "doc": val.Show(doc), "observed": o.Describe(), "vars": fmt.Sprintf("%#v", vars)}
+	if !o.OK() {
+		c.Violate("error", fmt.Sprintf("register query failed: %v", o.Describe()), det)
+		return
+	}
+	wantRows := n
+	if dual {
+		wantRows = 1
+	}
+	if len(o.Rows) != wantRows {
+		c.Violate("wrong-value", fmt.Sprintf("%d rows, expected %d", len(o.Rows), wantRows), det)
+		return
+	}
+	same := func(a, b any) bool { return reflect.DeepEqual(a, b) }
+	for i, r := range o.Rows {
+		m, _ := r.(map[string]any)
+		want := rows[i].(map[string]any)["big"]
+		if dual {
+			want = doc["big"]
+		}
+		if !same(val.Deref(m["g"]), want) {
+			c.Violate("wrong-value", fmt.Sprintf("row %d: GETVAR('k') = %#v right after SETVAR('k', big) with big = %#v", i, val.Deref(m["g"]), want), det)
+			return
+		}
+	}
+	last := rows[n-1].(map[string]any)["big"]
+	if !same(vars["k"], last) {
+		c.Violate("store", fmt.Sprintf("after Exec the caller's map holds %#v, the last value written is %#v", vars["k"], last), det)
+		return
+	}
+	o2 := Run(map[string]any{}, "SELECT GETVAR('k') AS g FROM dual", genql.WithVars(vars))
+	c.Evals(1)
+	if !o2.OK() || len(o2.Rows) != 1 || !same(val.Deref(o2.Rows[0].(map[string]any)["g"]), last) {
+		c.Violate("wrong-value", fmt.Sprintf("a later query given the map reads %s, the register holds %#v", o2.Describe(), last), det)
+		return
+	}
+	c.Sample(map[string]any{"sql": sql, "last": fmt.Sprintf("%#v", last)})
+	c.Nontrivial(sql + fmt.Sprintf("%#v", rows))
 }
